@@ -5,6 +5,7 @@
 // specification can evaluate it for any node without a logged field.
 #include "fastscapelib/flow/flow_graph.hpp"
 #include "fastscapelib/flow/flow_router.hpp"
+#include "fastscapelib/flow/sink_resolver.hpp"
 
 #include "grids.hpp"
 
@@ -22,6 +23,19 @@ namespace vh
                 c = static_cast<long long>(i) % nc;
             }
             return ((f["a"].as_int() * r + f["b"].as_int() * c) % f["m1"].as_int()) + ((r * c) % f["m2"].as_int());
+        }
+
+        // "comb lake": border at level B (the default base levels), a spine (row 1) and the odd columns at
+        // the floor level L, the even columns walls at W - one closed depression of long one-node corridors
+        long long comb_of(const vj::value& d, const vj::value& f, size_t i)
+        {
+            long long nc = d["nc"].as_int(), nr = d["nr"].as_int();
+            long long r = static_cast<long long>(i) / nc, c = static_cast<long long>(i) % nc;
+            if (r == 0 || r == nr - 1 || c == 0 || c == nc - 1)
+                return f["B"].as_int();
+            if (r == 1 || c % 2 == 1)
+                return f["L"].as_int();
+            return f["W"].as_int();
         }
 
         template <class G>
@@ -125,6 +139,42 @@ namespace vh
                     }
                     vj::obj o;
                     o.str("e", "BigRoute").num("thr", thr).raw("smp", smp + "]");
+                    out += o.done() + "\n";
+                }
+            }
+            if (c.has("fills"))
+            {
+                // depression filling on a world of a million nodes, observed at sampled nodes: how many
+                // representable values the returned elevation lies above the input / above the border level
+                const auto& cf = c["comb"];
+                auto z = grid_array<GC, double>(*g0, 0.0);
+                for (size_t i = 0; i < n; ++i)
+                    z.flat(i) = static_cast<double>(comb_of(gd, cf, i));
+                const double B = static_cast<double>(cf["B"].as_int());
+                for (auto& fp : c["fills"].a)
+                {
+                    const auto& ft = *fp;
+                    note("big fill");
+                    fs::flow_graph<GC> fg(*g0, { fs::pflood_sink_resolver(), fs::single_flow_router() });
+                    const auto& zo = fg.update_routes(z);
+                    auto clip = [](int64_t v) { return static_cast<long long>(std::max<int64_t>(-2000000000, std::min<int64_t>(2000000000, v))); };
+                    std::string smp = "[";
+                    bool first = true;
+                    for (auto& sp : ft["samples"].a)
+                    {
+                        size_t i = static_cast<size_t>(sp->as_int());
+                        vj::obj s;
+                        double o = zo.flat(i);
+                        s.num("i", static_cast<long long>(i)).num("z", comb_of(gd, cf, i));
+                        s.num("fin", std::isfinite(o) ? 1 : 0);
+                        s.num("uz", clip(dkey(o) - dkey(z.flat(i)))).num("ub", clip(dkey(o) - dkey(B)));
+                        s.num("same", same_bits(o, z.flat(i)) ? 1 : 0);
+                        s.num("self", fg.impl().receivers()(i, 0) == i ? 1 : 0);
+                        smp += std::string(first ? "" : ",") + s.done();
+                        first = false;
+                    }
+                    vj::obj o;
+                    o.str("e", "BigFill").raw("comb", vj::dump(cf)).raw("smp", smp + "]");
                     out += o.done() + "\n";
                 }
             }
